@@ -124,6 +124,7 @@ Inductive exn :=
 | ShapeLoad       (* ShapeLoadError *)
 | ConstraintLoad  (* ConstraintLoadError *)
 | TooDeep         (* ReportableRuntimeError "Validation path too deep" *)
+| ValFailure      (* ValidationFailure (returned in place of the report graph) *)
 | OutOfFuel.      (* model artefact: never reachable with the stated fuel *)
 
 Inductive res (A:Type) := Ok (a:A) | Err (e:exn).
